@@ -438,7 +438,7 @@ ALL_SCALE = ["range", "objlit", "spreadlit", "chain", "strchain", "shared", "lon
 def scale_family(ctx, name, families, seeds=None):
     """MC_Scale: one construct at sizes well above the other models' bounds (an interpreter can
     behave differently above a size), replayed."""
-    sizes = (9, 33) if ctx.quick else (9, 21, 33, 70, 130)
+    sizes = (9, 33) if ctx.quick else (9, 21, 33, 70)
     out = ctx.run_model("MC_Scale", "SelectedParams", progof="ScaleProgOf", max_steps=200000,
                         invariants=["ScaleLaws"], name="MC_Scale_" + name, workers=16,
                         constants={"Sizes": "= {%s}" % ", ".join(str(n) for n in sizes),
